@@ -65,6 +65,9 @@ func Guard(f func()) (p *Panic) {
 type Tracer struct {
 	mu  sync.Mutex
 	Log []string
+	// Hook, when set, runs inside every call of the harness function tr before it logs: the
+	// harness gets control in the middle of an evaluation (re-entrant invocations)
+	Hook func()
 }
 
 func (t *Tracer) Add(s string) {
